@@ -1,6 +1,6 @@
 """Evaluate the seeded property-breaking changes under /verif/seeded/<name>/ against the checks.
 
-    python -m vf.seedtool eval [name ...] [--tests] [--tier quick|thorough] [--checks C01,C07]
+    python -m vf.seedtool eval [name ...] [--tests] [--scratch] [--tier quick|thorough] [--checks C01,C07]
 
 For each seed: `git -C /repo apply patch.diff`, optionally run the repository's pinned test suite, run the
 checks named in meta.json["checks"] (default: the property the seed breaks) with the evidence redirected to a
@@ -28,6 +28,47 @@ def sh(*a, **k):
 
 def clean():
     return sh('git', '-C', REPO, 'status', '--porcelain').stdout.strip() == ''
+
+
+def evaluate_scratch(name, tier, run_tests, only_checks):
+    """same as evaluate, but in a throw-away worktree of /repo's HEAD (VERIF_REPO points the checks at it), so that
+    checks running against /repo at the same time are not disturbed"""
+    d = os.path.join(SEEDED, name)
+    meta_p = os.path.join(d, 'meta.json')
+    meta = json.load(open(meta_p))
+    patch = os.path.join(d, 'patch.diff')
+    checks = only_checks or meta.get('checks') or [meta['property']]
+    wt = tempfile.mkdtemp(prefix='hail-seed-', dir='/var/tmp')
+    os.rmdir(wt)
+    r = sh('git', '-C', REPO, 'worktree', 'add', '-q', '--detach', wt, 'HEAD')
+    if r.returncode != 0:
+        raise SystemExit(r.stderr)
+    evd = tempfile.mkdtemp(prefix='seed-ev-')
+    try:
+        r = sh('git', '-C', wt, 'apply', patch)
+        if r.returncode != 0:
+            out = {'applies': False, 'error': r.stderr.strip()[:300]}
+        else:
+            out = {'applies': True, 'tier': tier, 'checks': {}, 'where': 'scratch worktree of /repo HEAD ' + sh('git', '-C', REPO, 'rev-parse', '--short', 'HEAD').stdout.strip()}
+            if run_tests:
+                t = sh(*TESTS, cwd=wt)
+                m = re.search(r'(\d+) passed', t.stdout)
+                out['repo_tests_passed'] = int(m.group(1)) if m else 0
+                mf = re.search(r'(\d+) failed', t.stdout)
+                out['repo_tests_failed'] = int(mf.group(1)) if mf else 0
+            env = dict(os.environ, VERIF_EVIDENCE_DIR=evd, VERIF_TIER=tier, VERIF_REPO=wt)
+            for c in checks:
+                p = sh(os.path.join(ROOT, 'check'), c, '--tier', tier, env=env)
+                keys = sorted(set(re.findall(r'^\s*mechanism=([^:]+):', p.stdout, re.M)))
+                out['checks'][c] = {'exit': p.returncode, 'violation_line': bool(re.search(r'^VIOLATION property=', p.stdout, re.M)), 'mechanisms': keys[:12]}
+            out['caught_by'] = sorted(c for c, v in out['checks'].items() if v['exit'] == 1 and v['violation_line'])
+    finally:
+        sh('git', '-C', REPO, 'worktree', 'remove', '--force', wt)
+        shutil.rmtree(wt, ignore_errors=True)
+        shutil.rmtree(evd, ignore_errors=True)
+    meta.setdefault('evaluated', {})[tier] = out
+    json.dump(meta, open(meta_p, 'w'), indent=1, sort_keys=True)
+    return out
 
 
 def evaluate(name, tier, run_tests, only_checks):
@@ -72,6 +113,7 @@ def main(argv):
     args = argv[1:]
     tier = 'quick'
     run_tests = '--tests' in args
+    scratch = '--scratch' in args
     only = None
     names = []
     i = 0
@@ -83,14 +125,14 @@ def main(argv):
         elif a == '--checks':
             only = args[i + 1].split(',')
             i += 1
-        elif a != '--tests':
+        elif a not in ('--tests', '--scratch'):
             names.append(a)
         i += 1
     if not names:
         names = sorted(n for n in os.listdir(SEEDED) if os.path.exists(os.path.join(SEEDED, n, 'meta.json')))
     bad = 0
     for n in names:
-        o = evaluate(n, tier, run_tests, only)
+        o = (evaluate_scratch if scratch else evaluate)(n, tier, run_tests, only)
         print(n, 'caught_by=' + ','.join(o.get('caught_by', [])) or '-', json.dumps({k: v for k, v in o.items() if k not in ('checks',)}))
         for c, v in o.get('checks', {}).items():
             print('   ', c, 'exit', v['exit'], v['mechanisms'][:4])
